@@ -354,7 +354,8 @@ def check_c04(lang, text):
 # ------------------------------------------------------------------------------------------- C17
 COMMENT_LINE = {"brace": "// c", "indent": "# c"}
 MARKERS = {"brace": ["// nocl", "//NOCL", "/* nocl */", "//   NoCl because", "/*nocl*/"], "indent": ["# nocl", "#NOCL", "#   NoCl because"]}
-NON_MARKERS = {"brace": ["// not nocl", "// see nocl docs", "/* x nocl */"], "indent": ["# not nocl", "# see nocl"]}
+NON_MARKERS = {"brace": ["// not nocl", "// see nocl docs", "/* x nocl */", "// was: f(a, b) // nocl", "/* old /* nocl */", "// x ;nocl", "// x #nocl"],
+               "indent": ["# not nocl", "# see nocl", "# was: def f(a, b):  # nocl", "# x ;nocl", "# x //nocl"]}
 
 
 def check_c17(lang, rnd):
@@ -426,6 +427,34 @@ def check_c17(lang, rnd):
             fails.append(("marker-on-other-line-suppressed", f"reported {got}", txt))
     except Exception as e:  # noqa
         fails.append(("exception", f"{type(e).__name__}: {e}", txt))
+    # structured random programs: marking the name line of functions that neither enclose nor are nested in another one
+    # removes exactly the functions named on that line and leaves every other measurement as it was
+    for t in sketches(lang, rnd, 60):
+        try:
+            ref = [mtuple(m) for m in analyse(lang, t)]
+        except Exception:  # noqa
+            continue   # totality is C03's statement
+
+        def related(a, b):
+            return a is not b and (tuple(b["start"]) <= tuple(a["start"]) <= tuple(b["end"]) or tuple(a["start"]) <= tuple(b["start"]) <= tuple(a["end"]))
+        lines = t.split("\n")
+        for L in sorted({m["start"][0] for m in ref}):
+            here = [m for m in ref if m["start"][0] == L]
+            if any(related(m, o) for m in here for o in ref):
+                continue
+            if any('"""' in x for x in lines[L - 1:L]):
+                continue
+            marked = "\n".join(lines[:L - 1] + [lines[L - 1] + "  " + MARKERS[flav][0]] + lines[L:])
+            try:
+                got = [mtuple(m) for m in analyse(lang, marked)]
+            except Exception as e:  # noqa
+                fails.append(("exception", f"{type(e).__name__}: {e}", marked))
+                continue
+            n += 1
+            want = [m for m in ref if m["start"][0] != L]
+            if got != want:
+                fails.append(("marking-changed-another-function", f"marker appended to line {L}: reported {[(g['name'], g['start'], g['end'], g['length']) for g in got]}, "
+                              f"expected {[(g['name'], g['start'], g['end'], g['length']) for g in want]}", marked))
     return fails, n
 
 
